@@ -163,6 +163,10 @@ def _families():
          lambda x, p: p[0] + 0 * x, lambda x, p: 0 * x, lambda x, p: 0 * x),
         ("cube(x)", 0, lambda r: [],
          lambda x, p: x ** 3, lambda x, p: 3 * x ** 2, lambda x, p: 6 * x),
+        # H^2 = 1: the antiderivative of 1/sqrt(H^2) is x itself, so the lambdified analytic function hands back the very
+        # array it was given (an in-place update of its result then corrupts the sample: seeded change C19b)
+        ("1", 0, lambda r: [],
+         lambda x, p: 1 + 0 * x, lambda x, p: 0 * x, lambda x, p: 0 * x),
         ("a0*x", 1, lambda r: [u(r, 100, 9000)],
          lambda x, p: p[0] * x, lambda x, p: p[0] + 0 * x, lambda x, p: 0 * x),
         ("a0*cube(x)", 1, lambda r: [u(r, 100, 9000)],
@@ -671,7 +675,11 @@ def check_case(ctx, fam_index, params, zp1, zp1_b=None, record=True):
             try:
                 with warnings.catch_warnings():
                     warnings.simplefilter("ignore")
-                    mua = np.atleast_1d(np.asarray(inst.get_pred(np.array(zp1, dtype=float), a, fi, integrated=True), dtype=float))
+                    zin = np.array(zp1, dtype=float)
+                    mua = np.atleast_1d(np.asarray(inst.get_pred(zin, a, fi, integrated=True), dtype=float))
+                if not np.array_equal(zin, np.array(zp1, dtype=float)):
+                    fail("analytic-mutates-input", "%s a=%r: get_pred(..., integrated=True) changed the redshift sample it was given: %r became %r"
+                         % (fstr, list(params), list(zp1)[:6], zin[:6].tolist()))
                 for i in range(len(zp1)):
                     da = float(_dl_from_mu(mua[i], zp1[i], inst.mu_const))
                     dn = float(_dl_from_mu(mu[i], zp1[i], inst.mu_const))
